@@ -59,10 +59,11 @@ def TrInv (st : State) : Prop :=
   cases o <;> simp [emit, State.setConn] <;> split <;> rfl
 
 @[simp] theorem applyClose_full (c : Conn) (f : Bool) : applyClose c false f = Conn.shut := rfl
-@[simp] theorem applyClose_half_read (c : Conn) (f : Bool) : (applyClose c true f).canRead = (!f && c.canRead) := by
-  cases f <;> rfl
+@[simp] theorem applyClose_half_read (c : Conn) (f : Bool) :
+    (applyClose c true f).canRead = (!(f && c.canWrite) && c.canRead) := by
+  cases f <;> cases hw : c.canWrite <;> simp [applyClose, hw, Conn.shut]
 @[simp] theorem applyClose_half_write (c : Conn) (f : Bool) : (applyClose c true f).canWrite = false := by
-  cases f <;> rfl
+  cases f <;> cases hw : c.canWrite <;> simp [applyClose, hw, Conn.shut]
 @[simp] theorem emit_cEof (st : State) (o : Output) : (emit st o).cEofFail = st.cEofFail := by
   cases o <;> simp [emit, State.setConn] <;> split <;> rfl
 @[simp] theorem emit_sEof (st : State) (o : Output) : (emit st o).sEofFail = st.sEofFail := by
@@ -383,13 +384,15 @@ theorem full_applyKill (st : State) (h : Full st) : Full (applyKill st) := by
 
 /-- configuration is constant, the message list is untouched and the command log only grows -/
 def Ext (a b : State) : Prop :=
-  b.flow = a.flow ∧ b.proto = a.proto ∧ b.connectAs = a.connectAs ∧ b.msgs = a.msgs ∧ ∃ r, b.trace = a.trace ++ r
+  b.flow = a.flow ∧ b.proto = a.proto ∧ b.connectAs = a.connectAs ∧ b.msgs = a.msgs ∧
+  (∃ r, b.trace = a.trace ++ r) ∧ b.cEofFail = a.cEofFail ∧ b.sEofFail = a.sEofFail
 
-theorem Ext.refl (a : State) : Ext a a := ⟨rfl, rfl, rfl, rfl, [], by simp⟩
+theorem Ext.refl (a : State) : Ext a a := ⟨rfl, rfl, rfl, rfl, ⟨[], by simp⟩, rfl, rfl⟩
 theorem Ext.trans {a b c : State} (h1 : Ext a b) (h2 : Ext b c) : Ext a c := by
-  obtain ⟨a1, a2, a3, a4, r1, a5⟩ := h1
-  obtain ⟨b1, b2, b3, b4, r2, b5⟩ := h2
-  exact ⟨b1.trans a1, b2.trans a2, b3.trans a3, b4.trans a4, r1 ++ r2, by rw [b5, a5, List.append_assoc]⟩
+  obtain ⟨a1, a2, a3, a4, ⟨r1, a5⟩, a6, a7⟩ := h1
+  obtain ⟨b1, b2, b3, b4, ⟨r2, b5⟩, b6, b7⟩ := h2
+  exact ⟨b1.trans a1, b2.trans a2, b3.trans a3, b4.trans a4, ⟨r1 ++ r2, by rw [b5, a5, List.append_assoc]⟩,
+    b6.trans a6, b7.trans a7⟩
 
 theorem handle_ext (st : State) (e : Ev) : Ext st (handle st e) := by
   unfold handle Ext
@@ -414,11 +417,13 @@ theorem drain_ext (q : List Ev) (st : State) : Ext st (drain q st) := by
     · exact (handle_ext st e).trans (ih _)
     · simp [Ext]
 
-def Cfg (a b : State) : Prop := b.flow = a.flow ∧ b.proto = a.proto ∧ b.connectAs = a.connectAs
+def Cfg (a b : State) : Prop :=
+  b.flow = a.flow ∧ b.proto = a.proto ∧ b.connectAs = a.connectAs ∧ b.cEofFail = a.cEofFail ∧ b.sEofFail = a.sEofFail
 
-theorem Ext.cfg {a b : State} (h : Ext a b) : Cfg a b := ⟨h.1, h.2.1, h.2.2.1⟩
+theorem Ext.cfg {a b : State} (h : Ext a b) : Cfg a b := ⟨h.1, h.2.1, h.2.2.1, h.2.2.2.2.2.1, h.2.2.2.2.2.2⟩
 theorem Cfg.trans {a b c : State} (h1 : Cfg a b) (h2 : Cfg b c) : Cfg a c :=
-  ⟨h2.1.trans h1.1, h2.2.1.trans h1.2.1, h2.2.2.trans h1.2.2⟩
+  ⟨h2.1.trans h1.1, h2.2.1.trans h1.2.1, h2.2.2.1.trans h1.2.2.1, h2.2.2.2.1.trans h1.2.2.2.1,
+    h2.2.2.2.2.trans h1.2.2.2.2⟩
 
 theorem deliver_cfg (st : State) (ev : Ev) : Cfg st (deliver st ev) := by
   unfold deliver
@@ -447,7 +452,7 @@ theorem step_cfg_aux (st : State) (i : Input) (hi : i ≠ .hookKill) : Cfg st (s
     | closed s full =>
       refine Cfg.trans ?_ (deliver_cfg _ _)
       have := setConn_fields st s (if full = true then Conn.shut else { st.conn s with canRead := false })
-      exact ⟨this.1, this.2.2.2.2.2.2.2.1, this.2.2.2.2.2.2.2.2⟩
+      exact ⟨this.1, this.2.2.2.2.2.2.2.1, this.2.2.2.2.2.2.2.2, by cases s <;> rfl, by cases s <;> rfl⟩
     | hookDone edit =>
       simp only
       split
@@ -470,21 +475,20 @@ theorem step_cfg_aux (st : State) (i : Input) (hi : i ≠ .hookKill) : Cfg st (s
 theorem step_hookKill (st : State) :
     step st .hookKill = st ∨ step st .hookKill = step (applyKill st) (.hookDone none) := by
   have hf := applyKill_fields st
-  unfold step
-  rw [hf.2.2.2.2.1]
-  split
-  · left; rfl
-  · rw [hf.2.2.2.1]
+  cases hph : st.phase with
+  | idle => left; unfold step; simp [hph]
+  | _ =>
     cases hp : st.pending with
-    | none => left; rfl
-    | connect => left; rfl
-    | startHook => right; rfl
-    | errorHook => right; rfl
-    | endHook => right; rfl
-    | msgHook to m => right; simp [editMsg, hf.2.2.1, hf.2.2.2.2.2.1]
+    | none => left; unfold step; simp [hph, hp]
+    | connect => left; unfold step; simp [hph, hp]
+    | startHook => right; unfold step; simp [hph, hp, hf]
+    | errorHook => right; unfold step; simp [hph, hp, hf]
+    | endHook => right; unfold step; simp [hph, hp, hf]
+    | msgHook to m => right; unfold step; simp [hph, hp, hf, editMsg]
 
 theorem applyKill_cfg (st : State) : Cfg st (applyKill st) :=
-  ⟨(applyKill_fields st).1, (applyKill_fields st).2.2.2.2.2.2.2.1, (applyKill_fields st).2.2.2.2.2.2.2.2.1⟩
+  ⟨(applyKill_fields st).1, (applyKill_fields st).2.2.2.2.2.2.2.1, (applyKill_fields st).2.2.2.2.2.2.2.2.1,
+    (applyKill_fields st).2.2.2.2.2.2.2.2.2.2.2.1, (applyKill_fields st).2.2.2.2.2.2.2.2.2.2.2.2⟩
 
 theorem step_cfg (st : State) (i : Input) : Cfg st (step st i) := by
   by_cases hi : i = .hookKill
@@ -783,6 +787,13 @@ theorem full2_step (st : State) (i : Input) (h : Full2 st) : Full2 (step st i) :
 
 theorem full2_init (p : Proto) (f c : Bool) : Full2 (init p f c) :=
   ⟨full_init p f c, by intro f1 f2 h1 h2; simp [init] at h2⟩
+
+theorem full2_initX (p : Proto) (f c cd sd : Bool) : Full2 (initX p f c cd sd) := by
+  refine ⟨⟨?_, ?_, ?_⟩, ?_⟩
+  · simp [TrInv, initX, init, scan]
+  · cases c <;> simp [KInv, initX, init, Conn.opened]
+  · simp [QInv, initX, init]
+  · intro f1 f2 h1 h2; simp [initX, init] at h2
 
 theorem full2_run (st : State) (is : List Input) (h : Full2 st) : Full2 (run st is) := by
   induction is generalizing st with
